@@ -458,6 +458,14 @@ O(id='uper_open_type_put.leak', props=['C14', 'C07'], kind='bounded', entry='h_u
   bound='an open type whose contents are 0..8 bits, written at the end of the 32-octet scratch space; callback may fail at any call; every allocation may fail',
   min_props=50, timeout=900, tier='experimental')
 
+# ---------------------------------------------------------------- NativeReal over DER
+O(id='NativeReal_encode_der', props=['C02', 'C13', 'C14'], kind='width', entry='h_NativeReal_encode_der', harness='harness/h_nativereal.c',
+  units=[SK + 'NativeReal.c', SK + 'REAL.c'], functions=['NativeReal_encode_der', 'asn_double2REAL', 'der_encode_primitive'], proves=['NativeReal_encode_der'],
+  stubs=['stubs/math.c'], fp_restrict=[(r'::cb$', ['vf_cb']), (r'free_struct\)$', ['ASN__PRIMITIVE_TYPE_free'])], unwind=18,
+  cbmc=['--partial-loops', '--unwindset', 'asn_double2REAL.1:7,ber_fetch_tag.0:8,ber_fetch_length.0:10', '--no-malloc-may-fail', '--memory-leak-check'],
+  expected_fail=[r'asn_double2REAL\.unwind\.1'], bound='all 2^64 bit patterns of a double',
+  trusted=['ilogb / isfinite stubs (stubs/math.c)', 'asn_double2REAL little-endian gather loop modelled as exactly 7 iterations'], min_props=100, timeout=900)
+
 # ---------------------------------------------------------------- ENUMERATED over UPER
 O(id='NativeEnumerated_uper', props=['C01', 'C02', 'C08', 'C13'], kind='bounded', entry='h_NativeEnumerated_uper', harness='harness/h_enumerated_uper.c',
   units=[SK + 'NativeEnumerated.c'], functions=['NativeEnumerated_encode_uper', 'NativeEnumerated_decode_uper'], stubs=['stubs/bsearch.c'],
